@@ -12,5 +12,7 @@ CONSTANTS
   CachePrefilled = TRUE
   LockGlobals = TRUE
   LockLocals = TRUE
+  GCachePrefilled = TRUE
+  FillGlobalCachesUnderLock = FALSE
 INVARIANTS RaceLog TextLog
 CHECK_DEADLOCK FALSE
